@@ -1035,8 +1035,9 @@ func c10R3(c *Check, sr *storeRoles) {
 			errV := r.Results[len(r.Results)-1]
 			success := false
 			viaRefresh := false
+			knownErr := ff.At(r).NonNil(errV)
 			for _, l := range Leaves(errV, leafOpts{noConcat: true}) {
-				if isNilConst(l) {
+				if isNilConst(l) && !knownErr {
 					success = true
 				}
 				for _, rc := range rcalls {
@@ -1044,6 +1045,9 @@ func c10R3(c *Check, sr *storeRoles) {
 						viaRefresh = true
 					}
 				}
+			}
+			if knownErr && len(r.Results) == 1 {
+				continue // `if err != nil { return err }`: an error return, whatever the variable could hold elsewhere
 			}
 			dataRet := len(r.Results) == 2 && !isNilConst(r.Results[0])
 			if len(r.Results) == 2 {
